@@ -90,10 +90,7 @@ class HollowSession(rp.Session):
         self._reg   = self.fakes.RegistryClient(self._cfg.reg_addr)
 
         if bridges:
-            for q in ALL_QUEUES:
-                self._reg['bridges.%s' % q] = self.net.add_queue(q, ns)
-            for p in ALL_PUBSUBS:
-                self._reg['bridges.%s' % p] = self.net.add_pubsub(p, ns)
+            self.register_bridges()
 
         self._prof = boot.PROF
         self._rep  = boot.StubRep()
@@ -107,6 +104,12 @@ class HollowSession(rp.Session):
                             'client_sandbox'   : self._cfg.client_sandbox,
                             'js_shells'        : dict(),
                             'fs_dirs'          : dict()}
+
+    def register_bridges(self):
+        for q in ALL_QUEUES:
+            self._reg['bridges.%s' % q] = self.net.add_queue(q, self._ns)
+        for p in ALL_PUBSUBS:
+            self._reg['bridges.%s' % p] = self.net.add_pubsub(p, self._ns)
 
     def _get_logger(self, name, level=None, debug=None):
         return boot.LOG
@@ -177,6 +180,22 @@ class HollowPmgr(object):
             return False
         self._uids.add(uid)
         return True
+
+
+def cleanup():
+    """forget per-case objects in two module-level registries (memory and fork speed only):
+    BaseComponent.__init__ lists every component for its at-fork hook, TaskManager.initialize
+    registers bound methods with radical.utils.atfork"""
+    import sys
+    import radical.pilot.utils.component as rpu_component
+    del rpu_component._components[:]
+    try:
+        af = sys.modules[ru.atfork.__module__]
+        for lst in (af._prepare_call_list, af._parent_call_list, af._child_call_list):
+            lst[:] = [f for f in lst if not isinstance(getattr(f, '__self__', None),
+                                                       rp.TaskManager)]
+    except Exception:
+        pass
 
 
 def real_pilot(pmgr, uid, resource='local.localhost', cores=4, gpus=0,
